@@ -96,12 +96,17 @@ def gen_spec(rng, kind=None, maxn=4, via=None):
     if spec['via'] == 'griddesc' and rng.random() < 0.5:
         # with the CF coordinate variables the constructor adds by default
         spec['withcf'] = True
+    if rng.random() < 0.15:
+        # a variable without dimensions next to the gridded ones (a CF
+        # grid-mapping variable, a scalar constant)
+        spec['scalar'] = True
     if want_uamiv or (via is None and kind == 'grid' and UAMIV_SHARE and
                       rng.random() < UAMIV_SHARE):
         # the IOAPI-class file the gridded CAMx READER returns for an image
         # written by the independent codec (whole-hour times, names of at
         # most 10 characters, uniform sigma levels, two-digit-year window)
         spec['via'] = 'uamiv'
+        spec.pop('scalar', None)
         spec.pop('own_tflag', None)
         spec.pop('withcf', None)
         spec['masked'] = False
@@ -187,6 +192,15 @@ def fileattrs(spec):
 
 
 def build(spec):
+    f = _build(spec)
+    if spec.get('scalar'):
+        sv = f.createVariable('crs', 'i', ())
+        sv.grid_mapping_name = 'lambert_conformal_conic'
+        sv[...] = 7
+    return f
+
+
+def _build(spec):
     from PseudoNetCDF.cmaqfiles import ioapi_base
     if spec.get('via') == 'uamiv':
         return build_uamiv(spec)
